@@ -169,6 +169,14 @@ def _run(prop, mn, tier, seed, only=None):
             L = rng.sample(L, min(len(L), 500))
         if mn in X86 and prop == "C17":
             L = L + size_variants(mn, d, mode, seed)
+        if only is not None and "block" in only:
+            # replay of a history finding: the same corpus, the same history
+            if only.get("mode") == mode:
+                with Forced(d, mode):
+                    hn, hf = check_history(mn, d, mode, L, seed, nblocks=15 if tier == "quick" else 40)
+                n += hn
+                fails += [(dict(i_, seed=seed), dt) for i_, dt in hf if i_["sig"] == only["sig"]]
+            continue
         if only is not None:
             if only.get("mode") != mode:
                 continue
@@ -190,6 +198,7 @@ def _run(prop, mn, tier, seed, only=None):
                 distinct |= set(L)
                 continue
             objs, internals = shared_objects(mn) if prop == "C10" else ({}, None)
+            cpu_mod = importlib.import_module(mn)
             for b in L:
                 if time.time() > budget:
                     break
@@ -230,7 +239,279 @@ def _run(prop, mn, tier, seed, only=None):
                         for k in ch:
                             if k in objs:
                                 objs[k].sf = before[k][1]
+                    # the same frame condition for expression nodes that belong to ANOTHER map: the
+                    # instruction is applied to a state whose registers hold (k_r + 1); those nodes
+                    # (held here, as a map computed earlier would hold them) keep their sign flags
+                    held = []
+                    S = mapper()
+                    for r in _registers(cpu_mod):
+                        x = E.reg("k_" + r.ref, r.size)
+                        node = x + 1
+                        held += [x, node]
+                        S[r] = node
+                    snap_sf = [y.sf for y in held]
+                    try:
+                        i(S)
+                    except Exception:
+                        pass
+                    if [y.sf for y in held] != snap_sf:
+                        bad_ = [str(y) for y, s0 in zip(held, snap_sf) if y.sf != s0]
+                        fails.append((dict(inp, sig="shared:%s:stored-sign-flag" % desc[1]), "%s %s changed the sign flag of expression nodes stored in the map it was applied to: %s" % (desc[1], b.hex(), bad_[:3])))
+                    for k, v in objs.items():
+                        v.sf = before[k][1]
+            if prop == "C10" and only is None:
+                saved = dict((k, v.sf) for k, v in objs.items())
+                hn, hf = check_history(mn, d, mode, L, seed, nblocks=15 if tier == "quick" else 40)
+                n += hn
+                fails += [(dict(i_, seed=seed), dt) for i_, dt in hf]
+                for k, v in objs.items():
+                    v.sf = saved[k]
     return n, fails, samples, len(distinct)
+
+
+class Slow(BaseException):
+    pass
+
+
+def limited(secs, fn):
+    "fn() under an alarm (amoco catches Exception in places: the signal raises a BaseException)"
+    import signal
+
+    def _alarm(signum, frame):
+        raise Slow()
+    old = signal.signal(signal.SIGALRM, _alarm)
+    signal.alarm(secs)
+    try:
+        return fn()
+    finally:
+        signal.alarm(0)
+        signal.signal(signal.SIGALRM, old)
+
+
+def _nodes(e, out, depth=0):
+    "every sub-expression object of e (the objects themselves)"
+    if not isinstance(e, E.exp) or depth > 40:
+        return out
+    out.append(e)
+    if e._is_slc:
+        _nodes(e.x, out, depth + 1)
+    elif e._is_cmp:
+        for p in e.parts.values():
+            _nodes(p, out, depth + 1)
+    elif e._is_eqn:
+        if getattr(e, "l", None) is not None:
+            _nodes(e.l, out, depth + 1)
+        _nodes(e.r, out, depth + 1)
+    elif e._is_tst:
+        for x in (e.tst, e.l, e.r):
+            _nodes(x, out, depth + 1)
+    elif e._is_mem:
+        _nodes(e.a, out, depth + 1)
+        for l, v in e.mods:
+            _nodes(l, out, depth + 1)
+            _nodes(v, out, depth + 1)
+    elif e._is_ptr:
+        _nodes(e.base, out, depth + 1)
+    elif e._is_vec:
+        for x in e.l:
+            _nodes(x, out, depth + 1)
+    return out
+
+
+def check_history(mn, d, mode, L, seed, nblocks=15):
+    """C10: the map of a block denotes the same function whatever was analysed before or after.
+    Blocks of three executable instructions; maps are built, printed and applied to a seeded
+    constant state; then a history runs (other maps composed with them, merged, the merges
+    composed again, every instruction executed on scratch maps); afterwards the SAME map objects
+    must print and evaluate as before, and maps rebuilt from the same instructions must print
+    the same."""
+    from amoco.cas.mapper import merge
+    cpu = importlib.import_module(mn)
+    rng = random.Random("history/%s/%s/%s" % (mn, mode, seed))
+    hard = time.time() + 4 * nblocks + 30       # seconds for everything, observations included
+    deadline = time.time() + nblocks            # seconds for the history itself (the observations are not cut)
+    instrs = []
+    for b in rng.sample(L, len(L)):         # spread over the whole corpus (every specification has entries in L)
+        st, desc, i = decode(d, b)
+        if st != "ok" or i is None:
+            continue
+        try:
+            i(mapper())
+            str(i)
+        except Exception:
+            continue
+        instrs.append((b, i))
+        if len(instrs) >= nblocks * 3:
+            break
+    blocks = [instrs[k:k + 3] for k in range(0, len(instrs) - 2, 3)]
+    regs = _registers(cpu)
+    vals = dict((r.ref, rng.getrandbits(r.size)) for r in regs)
+
+    def state():
+        S = mapper()
+        for r in regs:
+            S[r] = E.cst(vals[r.ref], r.size)
+        return S
+
+    # the sign flags of the shared register objects are the first part's subject (per-instruction
+    # frame contract, known findings by mnemonic): they are put back before every observation, so
+    # that this part decides the OTHER channels (stored expressions modified in place, module state)
+    # ... the same for the sign flags of the nodes STORED in the observed maps (first part:
+    # 'stored-sign-flag' signatures, by mnemonic)
+    objs, _int = shared_objects(mn)
+    sf0 = dict((k, v.sf) for k, v in objs.items())
+    stored = []
+    seen_ids = set()
+
+    def remember(m):
+        for loc, v in m:
+            for x in (loc, v):
+                for node in _nodes(x, []):
+                    if id(node) not in seen_ids:        # the FIRST observation of a node is the reference
+                        seen_ids.add(id(node))
+                        stored.append((node, node.sf))
+
+    def restore():
+        for k, v in objs.items():
+            v.sf = sf0[k]
+        for node, sf in stored:
+            node.sf = sf
+
+    def build(blk):
+        restore()
+        try:
+            return mapper([d(b) for b, _ in blk])
+        except Exception:
+            return None
+
+    def const_of(x):
+        if x._is_cst:
+            return int(x.v) % (1 << x.size)
+        if x._is_cmp:
+            total = 0
+            for (lo, hi) in sorted(x.parts.keys()):
+                v = const_of(x.parts[(lo, hi)])
+                if v is None:
+                    return None
+                total += (v % (1 << (hi - lo))) << lo
+            return total
+        if x._is_vec:
+            alts = [const_of(y) for y in x.l]
+            return None if any(a is None or isinstance(a, str) for a in alts) else "alternatives %s" % sorted(alts)
+        return None
+
+    def fp(m):
+        """the function the map denotes, observed on the seeded constant state: the value of every
+        register and of every memory location written at a constant address (None where the result
+        is not a constant, e.g. a load from unknown memory); the TEXT of a map is not compared, a
+        stored expression may be restructured in place without changing what it denotes"""
+        restore()
+        import signal
+
+        class _Slow(BaseException):
+            pass
+
+        def _alarm(signum, frame):
+            raise _Slow()
+        old = signal.signal(signal.SIGALRM, _alarm)
+        signal.alarm(8)
+        try:
+            R = state() >> m
+            out = [(r.ref, const_of(R(r))) for r in regs]
+            for loc, v in R:
+                if loc._is_ptr and loc.base._is_cst:
+                    out.append((str(loc), const_of(R(E.mem(loc, v.size)))))
+            return ("values", out)
+        except _Slow:
+            return None          # no observation within 8 s: nothing is compared for this map
+        except Exception as e:
+            return ("evaluation raised %s" % sig(e), [])
+        finally:
+            signal.alarm(0)
+            signal.signal(signal.SIGALRM, old)
+    def snap():
+        return repr(sorted(getattr(cpu, "internals", {}).items())) if isinstance(getattr(cpu, "internals", None), dict) else None
+    maps = []
+    for blk in blocks:
+        s0 = snap()
+        m = build(blk)
+        if m is not None:
+            remember(m)
+            maps.append((blk, m, fp(m), s0))
+    fails = []
+    n = 0
+    # --- the history
+    merged = []
+    for _ in range(min(2 * nblocks, len(maps) * 2)):
+        (b1, m1, f1, _s1), (b2, m2, f2, _s2) = rng.choice(maps), rng.choice(maps)
+        if time.time() > deadline:
+            break
+        try:
+            limited(8, lambda: m1 >> m2)
+            if len(merged) < max(5, nblocks // 3):
+                M = limited(8, lambda: merge(m1, m2))
+                remember(M)
+                merged.append((b1, b2, M, fp(M)))
+        except (Slow, Exception):
+            continue
+    for (b1, b2, M, f) in merged:
+        (b3, m3, f3, _s3) = rng.choice(maps)
+        if time.time() > deadline:
+            break
+        try:
+            limited(8, lambda: M >> m3)
+            limited(8, lambda: m3 >> M)
+        except (Slow, Exception):
+            pass
+    for b, i in instrs:
+        try:
+            limited(8, lambda: i(state()))
+        except (Slow, Exception):
+            pass
+    # --- afterwards
+    for blk, m, before, internals0 in maps:
+        if time.time() > hard:
+            break           # observations not made are not counted
+        n += 1
+        after = fp(m)
+        names = "+".join(i.mnemonic for _, i in blk)
+        inp = {"cpu": mn, "mode": mode, "block": [b.hex() for b, _ in blk]}
+        if before is None or after is None:
+            n -= 1
+            continue
+        if after != before:
+            fails.append((dict(inp, sig="history:map-changed:%s" % names), "the map of block %s evaluates differently after other maps were composed/merged/executed: %s" % (names, _difference(before, after))))
+            continue
+        now = snap()
+        m2 = build(blk)
+        f2 = fp(m2) if m2 is not None else None
+        if f2 is not None and f2 != before:
+            if now != internals0:
+                # the cause is visible: an executed instruction wrote the module's 'internals' (instruction-set / endianness state)
+                fails.append((dict(inp, sig="history:rebuild-differs:internals-changed"), "the map of block %s built after the history differs from the one built first: the history changed %s.internals from %s to %s" % (names, mn, internals0, now)))
+            else:
+                fails.append((dict(inp, sig="history:rebuild-differs:%s" % names), "the map of block %s built after the history differs from the one built first: %s" % (names, _difference(before, f2))))
+    for (b1, b2, M, before) in merged:
+        if time.time() > hard:
+            break
+        n += 1
+        after = fp(M)
+        if before is None or after is None:
+            n -= 1
+            continue
+        if after != before:
+            names = "+".join(i.mnemonic for _, i in b1) + "|" + "+".join(i.mnemonic for _, i in b2)
+            fails.append(({"cpu": mn, "mode": mode, "block": [b.hex() for b, _ in b1] + ["|"] + [b.hex() for b, _ in b2], "sig": "history:merged-map-changed:%s" % names},
+                          "the merge of the maps of %s evaluates differently after being composed with another map: %s" % (names, _difference(before, after))))
+    return n, fails
+
+
+def _difference(before, after):
+    if before[0] != after[0]:
+        return "%s -> %s" % (before[0], after[0])
+    b, a = dict(before[1]), dict(after[1])
+    diff = ["%s: %s -> %s" % (k, hex(b[k]) if isinstance(b.get(k), int) else b.get(k), hex(a[k]) if isinstance(a.get(k), int) else a.get(k)) for k in sorted(set(a) | set(b)) if a.get(k) != b.get(k)]
+    return "; ".join(diff[:4])
 
 
 def check_wellformed(i, desc, cpu=None):
@@ -364,7 +645,7 @@ class _RtCpu(_Concrete):
                 "wall_s": round(time.time() - t0, 2)}
 
     def replay_rt(self, inputs):
-        n, fails, samples, distinct = _run(self.prop, self.mn, self.tier, 0, only=inputs)
+        n, fails, samples, distinct = _run(self.prop, self.mn, self.tier, inputs.get("seed", 0), only=inputs)
         for inp, detail in fails:
             if inp.get("sig") == inputs.get("sig") or True:
                 return "fail", detail
